@@ -33,6 +33,7 @@ type Plan struct {
 	Pace          []int  `json:"pace"` // ms before each consumer call, cycled
 	SrcErrAt      int    `json:"src_err_at"`
 	FErrAt        []int  `json:"f_err_at,omitempty"`
+	FErrKind      int    `json:"f_err_kind,omitempty"` // 0 plain sentinel, 1 wraps context.Canceled, 2 wraps context.DeadlineExceeded
 	Timeouts      []int  `json:"timeouts,omitempty"` // ms per consumer call (0 = no deadline), cycled
 	CloseAfter    int    `json:"close_after"`
 	CtorCancelled bool   `json:"ctor_cancelled,omitempty"`
@@ -65,6 +66,7 @@ func genPlan(streamKind bool) func(t *rapid.T) Plan {
 			}
 			if rapid.IntRange(0, 2).Draw(t, "ferr") == 0 && p.Len > 0 {
 				p.FErrAt = rapid.SliceOfNDistinct(rapid.IntRange(0, p.Len-1), 1, 3, func(x int) int { return x }).Draw(t, "ferrat")
+				p.FErrKind = rapid.SampledFrom([]int{0, 0, 1, 2}).Draw(t, "ferrkind")
 			}
 			if len(p.FErrAt) > 0 && p.SrcErrAt < 0 && rapid.IntRange(0, 2).Draw(t, "idle") == 0 {
 				first := p.FErrAt[0]
@@ -170,6 +172,12 @@ func run(p Plan) (vk.Outcome, error) {
 		fErr := map[int]error{}
 		for _, i := range p.FErrAt {
 			fErr[i] = sk.NewSentinel(fmt.Sprintf("f-%d", i))
+			switch p.FErrKind { // f's own failure may itself be (or wrap) a cancellation: a nested operation of f gave up
+			case 1:
+				fErr[i] = fmt.Errorf("f(%d): nested call: %w", i, context.Canceled)
+			case 2:
+				fErr[i] = fmt.Errorf("f(%d): nested call: %w", i, context.DeadlineExceeded)
+			}
 		}
 		body := func(i int) {
 			if i >= 0 && i < len(started) {
@@ -279,7 +287,13 @@ func run(p Plan) (vk.Outcome, error) {
 				v, err := ms.Next(ctx)
 				cancel()
 				if err != nil {
-					if timeout > 0 && errors.Is(err, context.DeadlineExceeded) {
+					own := true
+					for _, e := range fErr { // f's error may itself wrap a context error: it is f's, not this call's
+						if errors.Is(err, e) {
+							own = false
+						}
+					}
+					if own && timeout > 0 && errors.Is(err, context.DeadlineExceeded) {
 						expiredInARow++
 						continue // an expired Next costs nothing: carry on
 					}
